@@ -710,6 +710,80 @@ def check(run):
                 run.violation("T8", f.where, f"`{f.qualname}` assigns into `{nm}` = `{txt[:80]}`, whose dtype is whatever the caller passed for `{pname}`: with an integer "
                                              f"matrix the stored values are truncated, so the result is not the real-valued transform", key=key_of("C19-T8", f.qualname, nm))
     run.floor("array stores in transformations.py examined", n8, 25)
+    # -------------------------------------------------------------------- T15 rotation_from_matrix: sine recovery, branch by branch
+    run.rule("T15", "rotation_from_matrix: for R = Rodrigues(angle, unit axis d) and the eigenvector d, each of the three branches (|d_z|, |d_y|, |d_x| largest-first) "
+                    "recovers sin(angle) and cos(angle) exactly: arctan2 gets (sin, cos) of the very angle")
+    f_rfm = ix.func("trimesh.transformations:rotation_from_matrix")
+    s_, c_ = sp.symbols("s_a c_a", real=True)
+    d_ = [sp.Symbol(f"d{i}", real=True) for i in range(3)]
+    K_ = sp.Matrix([[0, -d_[2], d_[1]], [d_[2], 0, -d_[0]], [-d_[1], d_[0], 0]])
+    dv_ = sp.Matrix(d_)
+    R3 = c_ * sp.eye(3) + (1 - c_) * dv_ * dv_.T + s_ * K_
+    R4 = np.empty((4, 4), dtype=object)
+    R4[...] = sp.Integer(0)
+    R4[:3, :3] = np.array(R3.tolist(), dtype=object)
+    R4[3, 3] = sp.Integer(1)
+    unit = [(d_[0], 1 - d_[1] ** 2 - d_[2] ** 2)]  # d0^2 -> 1 - d1^2 - d2^2
+    for branch in range(3):
+        it_ = Interp(ix, symbols=dict(consts))
+        calls_ = {"eig": 0, "test": 0}
+
+        def eig_stub(itp, args, kw, _c=calls_):
+            _c["eig"] += 1
+            n = arr(args[0]).shape[0]
+            w = np.array([sp.Integer(1)] + [sp.Integer(0)] * (n - 1), dtype=object)
+            W = np.empty((n, n), dtype=object)
+            W[...] = sp.Integer(0)
+            col = d_ if n == 3 else [sp.Integer(0), sp.Integer(0), sp.Integer(0), sp.Integer(1)]
+            for i_ in range(n):
+                W[i_, 0] = col[i_]
+            return (w, W)
+
+        it_.ext_stubs["numpy.linalg.eig"] = eig_stub
+        it_.ext_stubs["numpy.where"] = lambda itp, args, kw: (np.array([0], dtype=object),)
+        it_.ext_stubs["numpy.real"] = lambda itp, args, kw: args[0]
+        captured_ = []
+        it_.ext_arctan2 = lambda y, x, _cap=captured_: (_cap.append((sp.sympify(y), sp.sympify(x))), sp.Function("ATAN2")(sp.sympify(y), sp.sympify(x)))[1]
+
+        def dec_(frame, test, _c=calls_, _b=branch):
+            txt = ast.unparse(test)
+            if "len(" in txt:
+                return "not" not in txt.split("len(")[0][-5:]  # `if not len(i): raise` is not taken
+            if ("1e-08" in txt or "1e-8" in txt) and isinstance(test, ast.Compare) and len(test.ops) == 1 and isinstance(test.ops[0], (ast.Gt, ast.GtE)):
+                # `abs(<component of the axis>) > 1e-8`: the magnitude tests that choose the formula
+                k = _c["test"]
+                _c["test"] += 1
+                return k == _b  # the k-th magnitude test is the first one that holds
+            if "1e-08" in txt or "1e-8" in txt:
+                return True  # the eigenvalue filter feeding np.where (stubbed: the unit eigenvector is the first column)
+            return None
+
+        it_.decider = dec_
+        try:
+            it_.call(f_rfm, [R4])
+        except Unsupported as e:
+            run.instance("T15", f_rfm.where, f"branch {branch}: rotation_from_matrix not translatable ({str(e)[:70]}) - NOT decided", True, nontrivial=False)
+            run.assume(f"rotation_from_matrix, branch {branch}: outside E3 ({str(e)[:80]})")
+            continue
+        except Exception as e:  # noqa - an interpreter problem is not a verdict
+            run.instance("T15", f_rfm.where, f"branch {branch}: rotation_from_matrix not evaluated ({type(e).__name__}: {str(e)[:60]}) - NOT decided", True, nontrivial=False)
+            run.assume(f"rotation_from_matrix, branch {branch}: not evaluated ({type(e).__name__})")
+            continue
+        if not captured_:
+            run.instance("T15", f_rfm.where, f"branch {branch}: no arctan2(sin, cos) reached - NOT decided", True, nontrivial=False)
+            continue
+        y_, x_ = captured_[-1]
+        # multiply the (rational) difference out and reduce with |d| = 1
+        def vanishes(e_):
+            num, den = sp.fraction(sp.together(e_))
+            return reduce_mod(sp.expand(num), _NoTrig, extra=unit) == 0
+        ok = vanishes(y_ - s_) and vanishes(x_ - c_)
+        run.obligation("T15", f_rfm.where, f"branch {branch} (first magnitude test that holds is #{branch}): arctan2 receives (sin a, cos a)", ok)
+        if not ok:
+            run.violation("T15", f_rfm.where, f"rotation_from_matrix, branch taken when the {['z', 'y', 'x'][branch]} component of the axis is the first one above 1e-8: arctan2 receives "
+                                              f"({sp.simplify(y_)}, {sp.simplify(x_)}) instead of (sin, cos) of the rotation angle - the recovered angle (or its sign) is wrong for such axes",
+                          key=key_of("C19-T15", branch))
+
     run.assume("real arithmetic; branch selection by _EPS, principal ranges of arctan2 and the 1e-8 identity shortcut are outside the claim")
     return {
         "explanation": "Polynomial-identity proof over sin/cos symbols: the 24 Euler conventions of euler_matrix equal the "
